@@ -147,9 +147,20 @@ func (kvsEngine) Gen(prop string, seed uint64, tier string) *Spec {
 					earlier[k] = append(earlier[k], uint64(c+1)<<32|val)
 					val++
 				}
+				if rng.Chance(0.03) {
+					// a key just outside the valid range [LOGSIZE, sz): the whole request must be refused
+					bad := []uint64{uint64(common.LOGSIZE) - 1, uint64(common.LOGSIZE) - 2, sz, sz + 1, 0, 1}[rng.Intn(6)]
+					op.Keys[rng.Intn(len(op.Keys))] = bad
+					op.X = 1
+				}
 				ops = append(ops, op)
 			} else {
 				k := uint64(common.LOGSIZE) + uint64(rng.Intn(nkeys))
+				if rng.Chance(0.03) {
+					k = []uint64{uint64(common.LOGSIZE) - 1, uint64(common.LOGSIZE) - 2, sz + 1, 0}[rng.Intn(4)]
+					ops = append(ops, Op{K: "get", Keys: []uint64{k}, X: 1})
+					continue
+				}
 				ops = append(ops, Op{K: "get", Keys: []uint64{k}})
 			}
 		}
@@ -248,6 +259,22 @@ func kvsModel(lo, n uint64) porcupine.Model {
 	return nm.ToModel()
 }
 
+// kvsRefuses runs f and reports whether it was refused with the store's
+// out-of-bounds panic (any other panic is passed on).
+func kvsRefuses(f func()) (refused bool) {
+	defer func() {
+		if r := recover(); r != nil {
+			if err, ok := r.(error); ok && strings.Contains(err.Error(), "out-of-bounds") {
+				refused = true
+				return
+			}
+			panic(r)
+		}
+	}()
+	f()
+	return false
+}
+
 type kvsRec struct {
 	client    int
 	in        kvsIn
@@ -288,9 +315,24 @@ func (kvsEngine) Exec(spec *Spec) *Result {
 						for j, k := range op.Keys {
 							pairs = append(pairs, kvs.KVPair{Key: k, Val: kvsValue(op.Vals[j])})
 						}
-						ok := kv.MultiPut(pairs)
-						if !ok {
+						if op.X != 0 {
+							// one of the keys lies outside the valid range: the store must refuse
+							// the whole request (it panics with an out-of-bounds error)
+							if !kvsRefuses(func() { kv.MultiPut(pairs) }) {
+								simrt.Fail("violation", fmt.Sprintf("MultiPut accepted keys %v although the valid range is [%d,%d)", op.Keys, lo, sz))
+							}
 							r.out.Refused = true
+						} else {
+							ok := kv.MultiPut(pairs)
+							if !ok {
+								r.out.Refused = true
+							}
+						}
+					} else if op.X != 0 {
+						r.in = kvsIn{Put: true} // an empty, refused request as far as the model goes
+						r.out.Refused = true
+						if !kvsRefuses(func() { kv.Get(op.Keys[0]) }) {
+							simrt.Fail("violation", fmt.Sprintf("Get accepted key %d although the valid range is [%d,%d)", op.Keys[0], lo, sz))
 						}
 					} else {
 						r.in = kvsIn{Keys: op.Keys}
